@@ -8,17 +8,17 @@ ALL = ["C%02d" % i for i in range(1, 21)]
 
 LEVEL_TEXT = {
  "C01": "proof: inverseDynamics of the code-shaped model EQUALS the first-principles Newton-Euler / d'Alembert specification (jets of the pose composition) for arbitrary trees, all joint types, fixed bodies, external forces, every workspace (capstone theorem, with the refinement relation established by construction for single-body joints, fixed joints and floating base); plus closed forms of both passes and NonlinearEffects = RNEA(0); the specification is also monitored against the C++ on every run",
- "C02": "proof: RNEA(ABA(tau)) = tau and the M^-1 tau route for every tree-ordered model, every workspace, 1-DoF / 3-DoF / custom blocks, under exactly the non-zero pivots the C++ divides by; Lagrangian solvers by certificate (solver-independent by C03)",
- "C03": "proof: composite inertias, CRBA entries, symmetry, off-path zeros, RNEA affine in qddot, RNEA unit column = CRBA column, tau = H qddot + N, LTL factorisation and triangular solves for all n (abstract square root)",
- "C04": "proof: every joint transform is the documented pose, X_base is the pose composition along the path, rotations stay rotations, base<->body conversions inverse for movable and fixed ids; spec monitor on every run",
- "C05": "proof: Jacobian columns as path products, G qdot = point / body velocity (6-D, fixed bodies), agreement of the three Jacobians, off-path entries untouched (and the necessity of zero initialisation)",
- "C06": "proof: per joint kind S qdot and c_J are the first / second jet of the joint pose; chain rule for composed poses; the code's v, a after (selective) updates are the jets of the body pose; point velocity / acceleration routines",
+ "C02": "proof: RNEA(ABA(tau)) = tau and the M^-1 tau route for every tree-ordered model, every workspace, 1-DoF / 3-DoF / custom blocks, under exactly the non-zero pivots the C++ divides by; capstone: forwardDynamics returns the acceleration whose first-principles specification inverse dynamics is tau, H_spec * MInvTimesTau = tau; Lagrangian solvers by certificate (solver-independent by C03)",
+ "C03": "proof: composite inertias, CRBA entries, symmetry, off-path zeros, RNEA affine in qddot, tau = H qddot + N, LTL factorisation and solves for all n; capstone: crba = first-principles inertia matrix entrywise, NonlinearEffects = specification at qddot = 0, kinetic energy = 1/2 qdot^T H qdot, for arbitrary trees with fixed bodies and constructed models",
+ "C04": "proof: every joint transform is the documented pose, X_base is the pose composition along the path, rotations stay rotations, conversions inverse; capstone: the three public routines equal the specification pose for movable, virtual and fixed ids of every constructed model; spec monitor on every run",
+ "C05": "proof: Jacobian columns as path products, G qdot = point / body velocity (6-D, fixed bodies), agreement of the three Jacobians, off-path entries untouched; capstone: the three Jacobians equal the first-order jets of the specification column- and entrywise for every constructed model",
+ "C06": "proof: per joint kind S qdot and c_J are the first / second jet of the joint pose; chain rule; the code's v, a after (selective) updates are the jets of the body pose; capstone: the four point velocity / acceleration routines equal the jets of the specification pose for every id of every constructed model",
  "C07": "proof: joint-level and whole-model equivalences (Euler orders / translation vs revolute chains through massless bodies, floating base, fixed joint vs merged inertia with a congruence lemma over all routines, custom vs built-in, spherical vs Euler by jets, relabelling for any tree isomorphism); CRBA/ABA lifts for chain-vs-3-DoF by twin monitor",
  "C08": "proof: uniqueness of KKT solutions, soundness of range-space / null-space block algebra, sign conventions, agreement of methods (linear algebra over any field / ordered field); the implementation's outputs are certified against the relations with gamma from the jet specification; loop-constraint classes D5a/b/c are known findings",
  "C09": "proof: row layout invariant for every sequence of additions, contact rows / errors / gamma as the documented quantities and as derivatives (jets), loops: exact gap formulas and exact conditions for consistency, Baumgarte; counterexamples for the recorded defect classes",
  "C10": "proof: energy balance and non-increase, uniqueness, feasible-unchanged, sign conventions for any solution of the impulse equations; certified on the outputs of the three routines",
  "C11": "proof: selection matrices partition, soundness of exact and relaxed operators for any solution of the projected system, full-actuation criterion as a rank statement; certified on outputs; the numerical rank decision compared with the exact rank where it has a margin",
- "C12": "proof: CoM recursion, mass moment, kinetic energy (Koenig), potential energy, ZMP on plane / no tangential moment / uniqueness, balance-addon transfer formulas and foot-placement geometry; definitions on jets monitored on every run",
+ "C12": "proof: CoM recursion, mass moment, kinetic energy (Koenig), potential energy, ZMP on plane / no tangential moment / uniqueness, balance-addon transfer formulas and foot-placement geometry; capstone: CalcCenterOfMass outputs, potential energy and the zero-moment point equal their definitions on the first-principles specification for every constructed model; definitions on jets monitored on every run",
  "C13": "proof: the invariant WSFixed is established by construction and poisoning, preserved by 23 routines, and implies workspace-independent results for 19 routines; documented flag-cleared pairs; counterexamples show each side condition is needed",
  "C14": "proof: well-formedness invariant by induction over every operation sequence, rejected additions leave the model unchanged, id / name / coordinate-range facts",
  "C15": "proof: Join = rigid union for every relative pose, Separate inverts Join incl. massless remainder, setters = rebuilding for movable / custom-joint / fixed bodies",
